@@ -581,7 +581,7 @@ int main(int argc, char **argv) {
         for (int no = 0; no < 5; no++) c03_pinpair_phase(4, no, 0);
         c03_pinpair_phase(4, 2, 4);
         c03_cbend_phase(4, 1); c03_cbend_phase(5, 1); c03_cbend_phase(4, 2);
-        if (T) { c03_cbend_phase(6, 1); c03_cbend_phase(5, 2); for (int no = 0; no < 5; no++) c03_pinpair_phase(5, no, 0); c03_pinpair_phase(5, 2, 4); }
+        if (T) { c03_cbend_phase(6, 1); c03_cbend_phase(5, 2); for (int no = 1; no < 4; no++) c03_pinpair_phase(5, no, 0); }
         if (T) { c03_orders_phase(3, 3, 1); c03_orders_phase(4, 2, 1); c03_phase(4, 2, true, 0, false); c03_phase(4, 2, false, 0, false); c03_phase(3, 3, true, 0, false); c03_phase(3, 3, false, 0, false); c03_phase(4, 2, true, 2, false); }
     } else if (PROP == "C04") {
         for (double pen : {0.0, 0.5, 3.0}) { c04_phase(4, 1, pen, true); c04_phase(T ? 4 : 3, 2, pen, true); c04_phase(4, 2, pen, false); }
